@@ -1392,10 +1392,12 @@ class JSONVisitor:
             # Check that start_after_text precedes end_before_text (and end_before exists).
             # Only meaningful when both markers were requested: with a single marker the
             # other bound is the start/end of the file and there is no order to violate.
+            # start_after already points past its marker: an end marker on the very next
+            # line is in order, there just is nothing in between.
             if (
                 "start-after" in options
                 and "end-before" in options
-                and start_after >= end_before >= 0
+                and start_after > end_before >= 0
             ):
                 self.diagnostics.append(
                     InvalidLiteralInclude(
